@@ -170,6 +170,20 @@ func VxC11_Approx() {
 			vx.Cover("opt:upper-unclamped")
 			vx.Assert(float64(hi)-1.5 < r1 && r1 <= float64(hi)-0.5, "the upper end is r1 rounded outward to a half-integer")
 		}
+		// Confidence is the normal mass of the band *before* clamping (1 when the band covers everything)
+		lu := int(math.Floor(math.Floor(l1-0.5)+0.5)) + 1
+		ru := int(math.Floor(math.Ceil(r1-0.5)+0.5)) + 1
+		if ru <= lu {
+			ru = lu + 1
+		}
+		if res.Ambiguous {
+			ru--
+		}
+		if !(lu <= 0 && ru >= n+1) {
+			vx.Assert(vx.Near(res.Confidence, norm.CDF(float64(ru)-0.5)-norm.CDF(float64(lu)-0.5), 1e-9, 1e-12), "Confidence is the normal mass of the band before clamping")
+		} else {
+			vx.Assert(res.Confidence == 1, "Confidence is 1 when the band covers every order")
+		}
 	}
 }
 
